@@ -10,6 +10,20 @@ pub fn build(tier: Tier) -> CheckDef {
     for sk in tiny_skeletons().into_iter().chain(small_shapes()).chain(extnum_shapes()) {
         spaces.push(Box::new(Prefixes { sk, oracle: PrefixCompare::new(true), label: "C18 slice parser" }));
     }
+    // the same object under every file type (relocatable, executable, core): behaviour must not
+    // depend on e_type
+    for (k, sk) in tiny_skeletons().into_iter().enumerate() {
+        if k != 4 && k != 3 {
+            continue;
+        }
+        for (et, name) in [(1u64, "ET_REL"), (2, "ET_EXEC"), (4, "ET_CORE")] {
+            let mut s2 = sk.clone();
+            let site = s2.sites.iter().find(|s| s.role == "ehdr.e_type").unwrap().clone();
+            refmodel::layout::put(&mut s2.bytes, site.off, site.width, s2.enc.order, et);
+            s2.name = format!("{}/{}", s2.name, name);
+            spaces.push(Box::new(Prefixes { sk: s2, oracle: PrefixCompare::new(true), label: "C18 slice parser" }));
+        }
+    }
     let encs: Vec<refmodel::layout::Enc> = if tier == Tier::Quick { vec![refmodel::layout::ENCS[2], refmodel::layout::ENCS[1]] } else { refmodel::layout::ENCS.to_vec() };
     for e in encs {
         for sk in rotated_skeletons(e) {
